@@ -20,6 +20,7 @@ type c12Case struct {
 	ArgvB  []string // world B's command line (differs from Argv only in the required-satisfied mode)
 	EnvB   EnvState
 	Mode   string
+	Typed  bool
 	Target string // required-satisfied: the option removed from the command line
 }
 
@@ -47,7 +48,7 @@ func (c12Prop) Rule() string {
 func (c12Prop) Phases(tier string) []PhaseCfg {
 	n := 60_000
 	if tier == "thorough" {
-		n = 4_000_000
+		n = 8_000_000
 	}
 	return []PhaseCfg{{Name: "seeded", Count: n}}
 }
@@ -55,7 +56,12 @@ func (c12Prop) Phases(tier string) []PhaseCfg {
 func (c12Prop) Gen(t *Tape, ph *PhaseCfg) Case {
 	c := &c12Case{}
 	mode := t.Weighted(5, 3, 2)
-	ds := genDecls(t, 5)
+	// Typed containers make a second failure mode possible (a token re-read as a typed value in another
+	// derivation fails its conversion: known finding KF-C12-1). One case in eight keeps them; the others use
+	// flags, strings and string lists only, where no command-line token can fail a conversion.
+	typed := t.Draw(8) == 0
+	ds := genDeclsKinds(t, 5, !typed)
+	c.Typed = typed
 	c.DS = ds
 	// at least one env-backed option
 	hasEnv := false
@@ -234,6 +240,9 @@ func (c12Prop) Exec(cc Case, st *Stats) *Violation {
 	a := runWorld(c.DS, c.Spec, c.Argv, EnvState{})
 	st.Evals++
 	st.Count("mode." + c.Mode)
+	if c.Typed {
+		st.Count("typed_containers")
+	}
 	if a.specErr {
 		st.Count("spec_did_not_compile")
 		return nil
@@ -264,7 +273,7 @@ func (c12Prop) Exec(cc Case, st *Stats) *Violation {
 			d += " (world B exceeded the " + b.p.Budget + " budget)"
 		}
 		v := &Violation{Clause: "monotone-acceptance", Detail: d, Expected: "world B accepts", Observed: observed}
-		if kfC12_1(c, b) {
+		if kfC12_1(c, a, b) {
 			v.Known = "KF-C12-1"
 		}
 		return v
@@ -294,21 +303,10 @@ func (c12Prop) Exec(cc Case, st *Stats) *Violation {
 	return nil
 }
 
-// kfC12_1 is the predicate of known finding KF-C12-1: world B is rejected by a *conversion* error of a typed
-// positional argument (not by a spec mismatch): the environment value opened an earlier derivation that binds a
-// non-numeric token to an int argument, and conversion errors do not make the matcher backtrack.
-func kfC12_1(c *c12Case, b *worldRun) bool {
-	if b.p.End != EndReturned || b.p.Err == nil {
-		return false
-	}
-	msg := b.p.Err.Error()
-	if !strings.HasPrefix(msg, "strconv.") {
-		return false
-	}
-	for _, d := range c.DS.Args {
-		if d.Kind == KInt || d.Kind == KInts {
-			return true
-		}
-	}
-	return false
+// kfC12_1 is the predicate of known finding KF-C12-1: typed containers are declared and world B is rejected by
+// a type *conversion* error (not by a spec mismatch): the environment value opened an earlier derivation in which
+// some token is read as the value of a typed option or argument, and conversion errors do not make the matcher
+// backtrack.
+func kfC12_1(c *c12Case, a, b *worldRun) bool {
+	return c.Typed && b.p.End == EndReturned && b.p.Err != nil && strings.HasPrefix(b.p.Err.Error(), "strconv.")
 }
